@@ -347,7 +347,7 @@ func fieldCall(info *types.Info, call *ast.CallExpr) (string, ast.Expr) {
 }
 
 type famSel struct {
-	nilGuard, validate, gate, noTrace, hookAdd, hookDel, hookFlush, mergeTotal, delGate, delIdem, keyAgree bool
+	nilGuard, validate, gate, noTrace, hookAdd, hookDel, hookFlush, mergeTotal, delGate, delIdem, keyAgree, replacedOrig bool
 }
 
 // ribFamily analyses the five Add and five Delete methods and the helpers.
@@ -605,11 +605,33 @@ func analyseAdd(c *Ctx, k *Kind, helpers map[*types.Func]*helperInfo, sel famSel
 		return
 	}
 	pos := c.P.pos(fi.Decl.Pos())
-	vNil, vVal, vGate, vTrace, vHook := newVerdicts(), newVerdicts(), newVerdicts(), newVerdicts(), newVerdicts()
-	nInstallPaths := 0
+	vNil, vVal, vGate, vTrace, vHook, vOrig := newVerdicts(), newVerdicts(), newVerdicts(), newVerdicts(), newVerdicts(), newVerdicts()
+	nInstallPaths, nOrigFromRetrieve := 0, 0
 	for _, p := range paths {
 		if p.End == "panic" {
 			continue
+		}
+		// R3.x the entry handed back as "the replaced original" (it drives the release of the old
+		// references in the caller) is read from the table before the install step overwrites the key
+		if val, isB := firstResultBool(info, p); isB && val && sel.replacedOrig {
+			if rs, ok := p.EndNode.(*ast.ReturnStmt); ok && len(rs.Results) == 3 {
+				vOrig.touch("replaced original read before the install")
+				ro := objOfIdent(info, rs.Results[1])
+				ii := idx(p, "install")
+				if ro == nil {
+					vOrig.fail("replaced original read before the install", "a success path hands back "+types.ExprString(rs.Results[1])+" as the replaced entry instead of what was retrieved before the install: "+p.describe(c.P))
+				}
+				for j, e := range p.Events {
+					if e.Kind != "retrieve" || ro == nil || e.Data.(*addEvData).ok != ro {
+						continue
+					}
+					if ii >= 0 && j > ii {
+						vOrig.fail("replaced original read before the install", "the entry handed back as the replaced original is retrieved after the install step, i.e. it is the new entry: the caller compares the new entry with itself and neither releases the old references nor counts the new ones: "+p.describe(c.P))
+					} else {
+						nOrigFromRetrieve++
+					}
+				}
+			}
 		}
 		// R12.1 nil guard before first use of e
 		if i := idx(p, "use-e"); i >= 0 {
@@ -726,6 +748,12 @@ func analyseAdd(c *Ctx, k *Kind, helpers map[*types.Func]*helperInfo, sel famSel
 	}
 	if sel.hookAdd {
 		vHook.emit(c, "NOTIFY", fi.Name, pos, map[string]string{"notify after install": "postChangeHook(Add, ts, holder name, new entry) after the install on success paths"})
+	}
+	if sel.replacedOrig {
+		if nOrigFromRetrieve == 0 {
+			vOrig.fail("replaced original read before the install", "no success path hands back an entry retrieved from the table before the install: a replace never releases the references of the entry it replaced")
+		}
+		vOrig.emit(c, "INSTALL-REFS", fi.Name, pos, map[string]string{"replaced original read before the install": "the second result is bound by retrieve…() before the install step (or stays nil when the key was absent)"})
 	}
 }
 
